@@ -22,6 +22,9 @@ struct CInfo {
     epoch: usize,
     /// may later operations use it (false once its tape state is not known to the generator)
     usable: bool,
+    /// Rat cases: 0 = input values, 1 = went through an operation (bounds the size of the
+    /// fractions: multiplying operations take level-0 operands only)
+    level: u8,
 }
 
 struct St {
@@ -32,6 +35,10 @@ struct St {
     derivs: usize,
     /// rough number of entries on each tape (bounds the cost of derivative requests)
     load: Vec<usize>,
+    /// Rat cases: highest level an operand may have in the step being generated, and whether
+    /// the step may multiply
+    allow_level: u8,
+    heavy: bool,
 }
 
 fn elems(shape: &Sh) -> usize {
@@ -42,7 +49,24 @@ fn shape_str(shape: &Sh) -> String {
     show_shape(shape)
 }
 
+/// element type of the case being generated: `Rat` values are small (the harness's rationals are
+/// i128 fractions), `Fp` values are arbitrary
+static RAT: std::sync::atomic::AtomicBool = std::sync::atomic::AtomicBool::new(false);
+
+fn rat_mode() -> bool {
+    RAT.load(std::sync::atomic::Ordering::Relaxed)
+}
+
 fn value(g: &mut Gen) -> String {
+    if rat_mode() {
+        g.count("c06.value.rat");
+        let n = g.rng.range(0, 10) as i64 - 5;
+        return if g.rng.chance(1, 4) {
+            format!("{}", crate::exact::Rat::new(n as i128, g.rng.range(2, 4) as i128))
+        } else {
+            format!("{}", n)
+        };
+    }
     if g.rng.chance(1, 8) {
         g.count("c06.value.small");
         format!("{}", *g.rng.pick(&[0u64, 1, 2, 3, P - 1, P - 2]))
@@ -58,7 +82,7 @@ fn values(g: &mut Gen, n: usize) -> String {
 
 impl St {
     fn new(ntapes: usize) -> St {
-        St { ntapes, conts: vec![], epochs: vec![0; ntapes], next: 0, derivs: 0, load: vec![0; ntapes] }
+        St { ntapes, conts: vec![], epochs: vec![0; ntapes], next: 0, derivs: 0, load: vec![0; ntapes], allow_level: 1, heavy: true }
     }
 
     fn fresh_name(&mut self) -> String {
@@ -68,7 +92,7 @@ impl St {
 
     fn live(&self, k: usize) -> bool {
         let c = &self.conts[k];
-        c.usable && c.tape.map(|t| c.epoch == self.epochs[t]).unwrap_or(true)
+        c.usable && c.level <= self.allow_level && c.tape.map(|t| c.epoch == self.epochs[t]).unwrap_or(true)
     }
 
     fn live_ids(&self) -> Vec<usize> {
@@ -80,7 +104,7 @@ impl St {
         if let Some(t) = tape {
             self.load[t] += elems(&shape);
         }
-        self.conts.push(CInfo { name, is_matrix, shape, tape, epoch, usable });
+        self.conts.push(CInfo { name, is_matrix, shape, tape, epoch, usable, level: 1 });
         self.conts.len() - 1
     }
 
@@ -95,7 +119,9 @@ impl St {
             Some(t) => g.op(format!("vars {} {} {} {} t={}", name, kind, shape_str(&shape), vals, t)),
             None => g.op(format!("consts {} {} {} {}", name, kind, shape_str(&shape), vals)),
         }
-        self.push(name, is_matrix, shape, tape, true)
+        let k = self.push(name, is_matrix, shape, tape, true);
+        self.conts[k].level = 0;
+        k
     }
 
     fn random_shape(&self, g: &mut Gen, is_matrix: bool) -> Sh {
@@ -278,12 +304,19 @@ fn step_unary(st: &mut St, g: &mut Gen, tape: usize) {
     let c = st.conts[k].clone();
     let (v, vs) = pick_view(g, &c, "unary", false);
     let mut ops: Vec<&'static str> = vec![];
-    ops.extend_from_slice(&UOPS_NUM);
-    ops.extend_from_slice(&UOPS_REAL_NUM);
-    ops.extend_from_slice(&UOPS_PLAIN);
-    ops.extend_from_slice(&UOPS_REAL);
-    ops.push("unary");
-    ops.push("unary");
+    if rat_mode() {
+        ops.extend_from_slice(&["addn", "subn", "subsw", "neg"]);
+        if st.heavy {
+            ops.extend_from_slice(&["muln", "divn", "divsw", "unary"]);
+        }
+    } else {
+        ops.extend_from_slice(&UOPS_NUM);
+        ops.extend_from_slice(&UOPS_REAL_NUM);
+        ops.extend_from_slice(&UOPS_PLAIN);
+        ops.extend_from_slice(&UOPS_REAL);
+        ops.push("unary");
+        ops.push("unary");
+    }
     let op = *g.rng.pick(&ops);
     let kind = if c.is_matrix { "M" } else { "T" };
     g.count(&format!("c06.op.{}.{}.{}", op, kind, if c.tape.is_some() { "var" } else { "const" }));
@@ -331,7 +364,7 @@ fn binary_operands(st: &mut St, g: &mut Gen, op: &str, tape: usize, cross: bool,
 }
 
 fn step_binary(st: &mut St, g: &mut Gen, tape: usize, cross: bool) {
-    let op = *g.rng.pick(&["add", "sub", "emul", "ediv", "binary", "add", "sub"]);
+    let op = if rat_mode() && !st.heavy { *g.rng.pick(&["add", "sub"]) } else { *g.rng.pick(&["add", "sub", "emul", "ediv", "binary", "add", "sub"]) };
     let ((ka, av), (kb, bv), shape) = binary_operands(st, g, op, tape, cross, false);
     let (ca, cb) = (st.conts[ka].clone(), st.conts[kb].clone());
     let kind = if ca.is_matrix { "M" } else { "T" };
@@ -457,6 +490,7 @@ fn step_uassign(st: &mut St, g: &mut Gen, tape: usize) {
     if let Some(t) = c.tape {
         st.load[t] += elems(&c.shape);
     }
+    st.conts[k].level = 1;
 }
 
 fn step_bassign(st: &mut St, g: &mut Gen, tape: usize, cross: bool) {
@@ -481,7 +515,7 @@ fn step_bassign(st: &mut St, g: &mut Gen, tape: usize, cross: bool) {
     };
     let (ko, ov) = operand_with_shape(st, g, ct.is_matrix, &shape, to, !tv.is_basic(), "assign_other");
     let co = st.conts[ko].clone();
-    let f = *g.rng.pick(&BFNS);
+    let f = if rat_mode() && !st.heavy { *g.rng.pick(&["add", "sub"]) } else { *g.rng.pick(&BFNS) };
     let via = if tv.is_basic() && ov.is_basic() { pick_form(g, "c06.form", op, &["assign", "do"]) } else { "assign" };
     let (ttok, otok) = (operand_tok(&ct, &tv), operand_tok(&co, &ov));
     g.count(&format!("c06.op.{}.{}{}", op, if ct.is_matrix { "M" } else { "T" }, if cross { ".cross_tape" } else { "" }));
@@ -500,6 +534,7 @@ fn step_bassign(st: &mut St, g: &mut Gen, tape: usize, cross: bool) {
             st.conts[kt].tape = t;
             st.conts[kt].epoch = t.map(|t| st.epochs[t]).unwrap_or(0);
         }
+        st.conts[kt].level = 1;
     }
 }
 
@@ -509,11 +544,16 @@ fn step_map(st: &mut St, g: &mut Gen, tape: usize) {
     let mutate = g.rng.chance(1, 2);
     let (v, vs) = pick_view(g, &c, if mutate { "mapmut" } else { "map" }, false);
     let indexed = g.rng.chance(1, 3);
-    let mut fns: Vec<String> = vec!["id".into(), "sq".into(), "aff".into(), "sq".into(), "aff".into()];
+    let mut fns: Vec<String> = vec!["id".into()];
+    if !rat_mode() || st.heavy {
+        fns.extend(["sq".to_string(), "aff".into(), "sq".into(), "aff".into()]);
+    }
     if indexed {
         fns.push("alt".into());
-        fns.push("scale".into());
-        fns.push("scale".into());
+        if !rat_mode() || st.heavy {
+            fns.push("scale".into());
+            fns.push("scale".into());
+        }
     }
     // functions that change the tape: through a view only for the allocating form
     if !mutate || matches!(v, ViewSpec::Own) {
@@ -552,6 +592,7 @@ fn step_map(st: &mut St, g: &mut Gen, tape: usize) {
         if !usable {
             st.conts[k].usable = false;
         }
+        st.conts[k].level = 1;
     } else {
         let name = st.fresh_name();
         g.op(format!("map {} {} fn={} via={}", name, operand_tok(&c, &v), f, via));
@@ -598,7 +639,7 @@ fn step_fromiter(st: &mut St, g: &mut Gen, tape: usize) {
         n += elems(&co.shape);
         opts.push(format!("chain={}", co.name));
     }
-    let f = g.rng.pick(&["id", "id", "sq", "aff", "konst", "lift"]).to_string();
+    let f = if rat_mode() && !st.heavy { g.rng.pick(&["id", "id", "konst", "lift"]).to_string() } else { g.rng.pick(&["id", "id", "sq", "aff", "konst", "lift"]).to_string() };
     let f = if f == "lift" { format!("lift.{}", tape) } else { f };
     match f.split('.').next().unwrap() {
         "konst" => {
@@ -658,7 +699,8 @@ fn step_fromiters(st: &mut St, g: &mut Gen, tape: usize) {
     let n = elems(&vs);
     let shape = reshape(g, to_matrix, n, &vs);
     let pairs = [("id", "sq"), ("aff", "konst"), ("sq", "aff"), ("konst", "id"), ("id", "half")];
-    let (f1, f2) = *g.rng.pick(&pairs);
+    let light_pairs = [("id", "konst"), ("konst", "id"), ("id", "half")];
+    let (f1, f2) = if rat_mode() && !st.heavy { *g.rng.pick(&light_pairs) } else { *g.rng.pick(&pairs) };
     let (n1, n2) = (st.fresh_name(), st.fresh_name());
     g.count(&format!("c06.op.fromiters.{}.{}_{}", if to_matrix { "M" } else { "T" }, f1, f2));
     g.op(format!(
@@ -777,23 +819,33 @@ fn step_clear_cycle(st: &mut St, g: &mut Gen, tape: usize) {
     }
 }
 
-fn gen_case(g: &mut Gen) {
+fn gen_case(g: &mut Gen, rat: bool) {
+    RAT.store(rat, std::sync::atomic::Ordering::Relaxed);
     let ntapes = if g.rng.chance(1, 3) { 2 } else { 1 };
-    g.count(&format!("c06.case.tapes.{}", ntapes));
-    g.op(format!("@ tapes {} fp", ntapes));
+    g.count(&format!("c06.case.{}.tapes.{}", if rat { "rat" } else { "fp" }, ntapes));
+    g.op(format!("@ tapes {} {}", ntapes, if rat { "rat" } else { "fp" }));
     let mut st = St::new(ntapes);
-    let steps = g.rng.range(3, 12);
+    let steps = if rat { g.rng.range(3, 8) } else { g.rng.range(3, 12) };
     g.count(&format!("c06.case.steps.{:02}", (steps + 2) / 3 * 3));
     for _ in 0..steps {
         let tape = g.rng.below(ntapes);
         let roll = g.rng.below(100);
+        // Rat: a multiplying step takes input containers only, the others take anything
+        let heavy = !rat || g.rng.chance(1, 2);
+        let set = |st: &mut St, heavy: bool| {
+            st.heavy = heavy;
+            st.allow_level = if rat && heavy { 0 } else { 1 };
+        };
+        set(&mut st, heavy);
         if roll < 18 {
             step_unary(&mut st, g, tape);
         } else if roll < 36 {
             step_binary(&mut st, g, tape, false);
         } else if roll < 48 {
+            set(&mut st, true);
             step_matmul(&mut st, g, tape, false);
         } else if roll < 53 {
+            set(&mut st, true);
             step_uassign(&mut st, g, tape);
         } else if roll < 63 {
             step_bassign(&mut st, g, tape, false);
@@ -804,31 +856,41 @@ fn gen_case(g: &mut Gen) {
         } else if roll < 80 {
             step_fromiters(&mut st, g, tape);
         } else if roll < 83 {
+            set(&mut st, false);
             step_reset(&mut st, g, tape);
         } else if roll < 89 {
+            set(&mut st, false);
             if st.derivs < 3 {
                 step_derivs(&mut st, g, tape);
             }
         } else if roll < 90 {
+            set(&mut st, false);
             step_derivs_of_constant(&mut st, g);
         } else if roll < 92 {
             step_shape_mismatch(&mut st, g, tape);
         } else if roll < 96 {
+            set(&mut st, false);
             step_clear_cycle(&mut st, g, tape);
         } else if ntapes == 2 {
             match g.rng.below(3) {
                 0 => step_binary(&mut st, g, tape, true),
-                1 => step_matmul(&mut st, g, tape, true),
+                1 => {
+                    set(&mut st, true);
+                    step_matmul(&mut st, g, tape, true)
+                }
                 _ => step_bassign(&mut st, g, tape, true),
             }
         }
     }
     // final derivatives on every tape
+    st.heavy = false;
+    st.allow_level = 1;
     for t in 0..ntapes {
         if st.derivs < 4 {
             step_derivs(&mut st, g, t);
         }
     }
+    RAT.store(false, std::sync::atomic::Ordering::Relaxed);
 }
 
 // ---------------------------------------------------------------------------------------------
@@ -1032,8 +1094,11 @@ pub fn gen(g: &mut Gen) {
     gen_constant_operand_matmul(g);
     gen_cross_tape(g);
     gen_reset_cycles(g);
-    let n = if g.thorough { 60000 } else { 6000 };
-    for _ in 0..n {
-        gen_case(g);
+    let (n_fp, n_rat) = if g.thorough { (60000, 10000) } else { (6000, 1000) };
+    for _ in 0..n_fp {
+        gen_case(g, false);
+    }
+    for _ in 0..n_rat {
+        gen_case(g, true);
     }
 }
